@@ -288,6 +288,37 @@ def run(ctx):
         ea.lineno,
     )
 
+    # ---- C09.8 consumed units are marked as held before the job can leave the function --------------------
+    # The finalisers give units back only for a job whose limits_held flag is set.  Any exit between _consume_resources() and the flag
+    # (an early reject for an unknown executor, a return) leaks the units: limits_used never drops and later jobs wait for ever.
+    r8 = ctx.rule("C09.8", "no exit between _consume_resources() and job.limits_held = True", floor=1)
+    n8 = 0
+    for q, fn in m.funcs.items():
+        if not q.startswith("Scheduler.") or not isinstance(fn, FuncNode):
+            continue
+        consumes = [c for c in calls_in(fn, shallow=True) if call_name(c) == "self._consume_resources"]
+        if not consumes:
+            continue
+        cfg8 = CFG(fn)
+        marks = [n for n in cfg8.nodes if n.kind == "stmt" and isinstance(n.ast, ast.Assign) and any(src(t).endswith(".limits_held") for t in n.ast.targets) and src(n.ast.value) == "True"]
+        leaves = [cfg8.exit, cfg8.raise_exit] + [
+            cfg8.node_of(c) for c in calls_in(fn, shallow=True) if (call_name(c) or "").split(".")[-1] in ("reject_job", "_reject_job_main_thread", "_reject_job", "_add_job_pending_limits")
+        ]
+        for c in consumes:
+            n8 += 1
+            cn = cfg8.node_of(c)
+            ok8 = bool(marks) and all(cfg8.must_pass(s_, marks, targets=leaves) for s_ in cn.succ if s_ is not cfg8.raise_exit)
+            r8.check(
+                ok8,
+                f"{m.rel}:{q}:consume-then-mark",
+                "after _consume_resources() the job can leave the function (return, reject, raise) before `limits_held = True`: the reject/done finalisers release "
+                "units only for jobs with the flag set, so the units stay counted in limits_used and a later job needing them is parked in _jobs_pending_limits for ever",
+                m.rel,
+                c.lineno,
+            )
+    if n8 == 0:
+        raise AnalysisError("no _consume_resources() call site found in Scheduler", "Scheduler._consume_resources")
+
 
 def _compress(seq: str) -> str:
     out = []
